@@ -23,6 +23,9 @@ class MomentGridder(vd.base.BaseGridder):
             mom = float(np.sum((np.arange(d.size) + 1.0) * d * e * w)) / 64.0
             comps.append((float(np.sum(w * d) / np.sum(w)), float(d[0]), mom))
         self.comps_ = comps
+        if self.tag:            # tag > 0: widen the window in which another thread sharing this object could refit it
+            import time
+            time.sleep(self.tag / 1000.0)
         return self
 
     def predict(self, coordinates):
